@@ -2804,9 +2804,7 @@ static EntryTableBArray bufr_csv_read_tableb
 	    free( csvcells );
             return NULL;
 	    }
-         csv_header = csvcells;
-	 csvcells = NULL;
-	 continue;
+	 continue; /* the header cells are not used again: released with the next line's */
          }
       if (nbcell != csv_line_size) 
          {
@@ -2982,9 +2980,7 @@ static EntryTableDArray bufr_csv_read_tabled (EntryTableDArray addr_tabled, cons
 	    free( csvcells );
             return NULL;
 	    }
-         csv_header = csvcells;
-	 csvcells = NULL;
-	 continue;
+	 continue; /* the header cells are not used again: released with the next line's */
          }
       if (nbcell != csv_line_size) 
          {
